@@ -7,6 +7,7 @@
 -/
 import FP.Model.Navigate
 import FP.Gen.NavSchema
+import FP.Lemmas.Path
 namespace FP.Props.C02
 open FP FP.Model FP.Gen.NavSchema
 
@@ -155,5 +156,51 @@ example : fieldStep "deceased" "deceased" 0
 example : fieldStep "nosuch" "nosuch" 0 ⟨"Patient", false, false, none, false, []⟩ = .err "invalid-field" := by decide
 example : fieldStep "lethalDose50" "lethal_dose_50" 0
     ⟨"X", false, false, none, false, [⟨"lethal_dose50", "lethalDose50", false, true, [.plain 3]⟩]⟩ = .ok [.node 3] := by decide
+
+/-! ### whole paths: the composition of steps -/
+
+open FP.Lemmas.Path in
+/-- A dotted path is the composition of its steps: evaluating `a.b` after `p` is evaluating `p`,
+    then `a.b` on what `p` yielded; an error of `p` is the outcome -/
+theorem path_is_composition (s t : List (Out → Res (List Out))) (c : List Out) :
+    evalPath (s ++ t) c = (evalPath s c).bind (evalPath t) :=
+  evalPath_append s t c
+
+open FP.Lemmas.Path in
+/-- DOCUMENT ORDER AND FLATTENING FOR WHOLE PATHS: over a collection made of two consecutive parts,
+    a path yields what it yields on the first part followed by what it yields on the second -/
+theorem path_keeps_document_order (fs : List (Out → Res (List Out))) (a b ra rb : List Out)
+    (ha : evalPath fs a = .ok ra) (hb : evalPath fs b = .ok rb) : evalPath fs (a ++ b) = .ok (ra ++ rb) :=
+  evalPath_distributes fs a b ra rb ha hb
+
+open FP.Lemmas.Path in
+/-- the first failing step decides: a name that is not an element anywhere along the path makes the
+    whole path fail with that error, whatever follows -/
+theorem path_error_is_final (s t : List (Out → Res (List Out))) (c : List Out) (e : String)
+    (h : evalPath s c = .err e) : evalPath (s ++ t) c = .err e := evalPath_error s t c e h
+
+open FP.Lemmas.Path in
+/-- the last step of a path is the collection step of FP.Model.Navigate (the one that is run against
+    the real `FieldExpression.Evaluate`) applied to the elements the path before it reached -/
+theorem path_last_step_is_field_step (t : Tree) (s : List (Out → Res (List Out))) (name snake : String)
+    (c : List Out) (ms : List (Nat × MsgDesc)) (h : evalPath s c = .ok (ms.map fun p => Out.node p.1))
+    (ht : ∀ p ∈ ms, t p.1 = some p.2) :
+    evalPath (s ++ [treeStep t name snake]) c = fieldStepAll name snake ms := by
+  rw [evalPath_snoc s _ c _ h]; exact stepAll_nodes t name snake ms ht
+
+open FP.Lemmas.Path in
+/-- nothing is fabricated: a path over the empty collection is empty -/
+theorem path_on_empty (fs : List (Out → Res (List Out))) : evalPath fs [] = .ok [] := evalPath_nil fs
+
+/-- a two-step path on a small tree: `name.given` over two names, in order, flattened -/
+example :
+    let given (i : Nat) (vs : List Child) : MsgDesc := ⟨"HumanName", false, false, none, false, [⟨"given", "given", true, true, vs⟩]⟩
+    let t : Tree := fun
+      | 0 => some ⟨"Patient", false, false, none, false, [⟨"name", "name", true, true, [.plain 1, .plain 2]⟩]⟩
+      | 1 => some (given 1 [.plain 10, .plain 11])
+      | 2 => some (given 2 [.plain 20])
+      | _ => none
+    evalPath [treeStep t "name" "name", treeStep t "given" "given"] [.node 0] = .ok [.node 10, .node 11, .node 20] := by
+  decide
 
 end FP.Props.C02
